@@ -76,7 +76,7 @@ def py_render(built: str, vars_: dict) -> str:
 
     pv = {}
     for k, v in vars_.items():
-        pv[k] = dt.datetime.strptime(v, "%Y%m%d") if re.match("^[0-9]{4}[01][0-9][0-3][0-9]$", v) else v
+        pv[k] = dt.datetime.strptime(v, "%Y%m%d") if isinstance(v, str) and re.match("^[0-9]{4}[01][0-9][0-3][0-9]$", v) else v
     return jinja2.Environment().from_string(built).render(pv | {"dt": dt})
 
 
@@ -223,6 +223,37 @@ def _failed_then_repaired(ctx, res, rng, job):
     return None
 
 
+def _optional_group(ctx, res, rng, job):
+    """the variables are the captures of the matching pattern - all of them: a named group that took no part in the match is a
+    capture too (None), and captures override what the caller passed under the same name"""
+    from zorg.service.templates import init_from_template
+
+    zdir = ctx.tmp / "z"
+    (zdir / "tmpl").mkdir(parents=True)
+    tname = f"opt{job}.zot"
+    tmpl = "# TEMPLATE opt\n\n## Project {{ name }}\n- started {{ date }}\n"
+    (zdir / "tmpl" / tname).write_text(tmpl)
+    rx = r"^proj/(?P<name>[a-z]+)(?:_(?P<date>[0-9]{8}))?\.zo$"
+    pmap = {re.compile(rx): Path("tmpl") / tname}
+    for target, vm in (("proj/beta.zo", None), ("proj/gamma.zo", {"date": "20200101"}), ("proj/delta_20240229.zo", {"date": "20200101"})):
+        try:
+            with contextlib.redirect_stderr(io.StringIO()), contextlib.redirect_stdout(io.StringIO()):
+                init_from_template(zdir, pmap, target, var_map=vm)
+            exc = None
+        except Exception as e:  # noqa
+            exc = f"{type(e).__name__}: {e}"[:200]
+        got = (zdir / target).read_text() if (zdir / target).exists() else None
+        want = py_render(py_build(tmpl), {**(vm or {}), **re.compile(rx).match(target).groupdict()})
+        res.evaluations += 1
+        res.count("optional_group_targets")
+        if exc or got != want:
+            res.failures.append(C.Failure(f"pattern with an optional named group: init of {target} (caller variables {vm}) gives {got!r} (raised {exc}), want {want!r}",
+                                          {"kind": "optional_group", "pattern": rx, "target": target, "vars": vm, "template": tmpl}))
+            return None
+    res.nontrivial.add(("optional_group", job))
+    return None
+
+
 def body(ctx: C.Ctx, proof: C.ProofStatus) -> C.Result:
     from zorg.service.templates import init_from_template
 
@@ -230,6 +261,8 @@ def body(ctx: C.Ctx, proof: C.ProofStatus) -> C.Result:
     res, _ = C.parallel_jobs(ctx, ctx.scale(9, 60), _move_into_templated_page)
     res2, _ = C.parallel_jobs(ctx, 6, _failed_then_repaired)
     res.merge(res2)
+    res3, _ = C.parallel_jobs(ctx, 2, _optional_group)
+    res.merge(res3)
     rng = ctx.rng
     n = ctx.scale(600, 15000)
     reqs, metas = [], []
@@ -330,7 +363,7 @@ RULE = (
     "random pattern maps (0-5 overlapping regexes with named groups / date-like captures), templates incl. equal basenames in "
     "different directories, 1-4 init steps per directory in one process (existing/missing targets, sub-directories, -f, explicit "
     "template, variables; via init_from_template and `zorg template init`); target bytes + all other files before/after vs. an "
-    "independent reading and vs. the Lean decision model + template pre-processing; failed renderings (template file missing, undefined variable, date-shaped non-date) write nothing and the retry writes the rendering; non-trivial = a step that wrote a file"
+    "independent reading and vs. the Lean decision model + template pre-processing; failed renderings (template file missing, undefined variable, date-shaped non-date) write nothing and the retry writes the rendering; a pattern with an optional named group (capture None, captures over caller variables); non-trivial = a step that wrote a file"
 )
 ASSUME = ["re.match and jinja2 rendering are parameters (computed by Python on both sides)", "file system atomic"]
 
